@@ -22,7 +22,7 @@ RULE = ('estimators: trainer x D x N x every assignment of {0,0.5,1,2} to N<=4 f
         'implementation, every traced step (state) compared, n<=8 (quick) iterations')
 ASSUMPTIONS = ['reference estimators of DESIGN A.4 (loops), mpmath hyp1f1 for the Watson ratio',
                'Watson concentration is judged by the residual |rho(kappa) - lambda_max| <= 1e-6 (spline inverse)',
-               'Bingham eigenvalues are judged by the gradient equation to 1e-5, not by expected values']
+               'Bingham eigenvalues are judged by the gradient equation to 1e-6, not by expected values']
 
 SAL_VALUES = (0.0, 0.5, 1.0, 2.0)
 
@@ -139,6 +139,11 @@ def run_trainer(key):
     if fam == 'bingham':
         got, e = _call(lambda: d.ComplexBinghamTrainer().fit(y, saliency=sal))
         if e is not None:
+            for idx in np.ndindex(*lead):
+                w_ = np.linalg.eigvalsh(M.scatter(z[idx], c[idx]))
+                if w_.min() <= 1e-10 * w_.max():
+                    from mc.core import raised_ok
+                    return raised_ok(e)     # rank-deficient weighted scatter: no Bingham estimate exists
             return viol(f'ComplexBinghamTrainer.fit raised {e!r}')
         ref = EM.m_step('cbmm', y, c[..., None, :], None, None, (-1,))
         imp = dict(pi=ref['pi'], bingham=dict(U=np.asarray(got.covariance_eigenvectors)[..., None, :, :],
@@ -151,9 +156,11 @@ def run_trainer(key):
     raise ValueError(fam)
 
 
-def bingham_gradient(lam, scatter_eig, idx=None, tol_=1e-5):
+def bingham_gradient(lam, scatter_eig, idx=None, tol_=1e-6):
     if np.min(np.abs(np.diff(np.sort(lam)))) < 1e-6:
         return None   # duplicate eigenvalues are spread by the implementation: not judged
+    if np.min(scatter_eig) < 1e-6 or np.abs(lam).max() > 1e6:
+        return None   # numerically rank-deficient scatter: concentrations explode, equation ill conditioned
     g = RD.bingham_grad_log_norm(lam)
     if np.abs(g - scatter_eig).max() > tol_:
         return (f'Bingham eigenvalues {lam} do not solve grad log c(lambda) = scatter eigenvalues '
@@ -274,10 +281,12 @@ def run_repetition(key):
     except Exception as e:  # noqa
         m2, r2 = None, e
     if r1 is not None or r2 is not None:
-        if r1 is not None and r2 is not None:
-            return trivial('both fits raise on this tiny data set: ' + type(r1).__name__)
+        if (r1 is not None and r2 is not None) or model == 'cbmm':
+            return trivial('fit raises on this tiny data set: ' + type(r1 or r2).__name__)
         return viol(f'{model}: saliency fit raised {r1!r} / repeated-data fit raised {r2!r}')
     f1, f2 = M.fields(model, m1), M.fields(model, m2)
+    if model == 'cbmm' and max(np.abs(m_.complex_bingham.covariance_eigenvalues).max() for m_ in (m1, m2)) > 1e6:
+        return trivial('Bingham concentration > 1e6: numerically rank-deficient class scatter')
     rt = 1e-5 if model == 'cbmm' else tol.ITER if model == 'cwmm' else tol.TIGHT * 100
     for name in f1:
         a, b = f1[name], f2[name]
